@@ -21,6 +21,13 @@ ENV_ASSUMPTIONS = [
 def recv_spec(name, tags, **P):
     P = dict(P)
     P['tags'] = list(tags)
+    if P.get('long_frame'):
+        P.setdefault('N', 0)
+        return Spec(name, 'checks.recv', 'run_recv', P, chunk=12,
+                    what='one %s frame (optionally split in two fragments) whose payload length is a solver variable over the boundary grid '
+                         '{0,1,125,126,127,255,256,65535,65536,65537} in every legal length form (7/16/64-bit incl. non-minimal encodings), symbolic '
+                         'content at both ends, followed by a Text frame; reads=%s; obligations %s'
+                         % ({1: 'text', 2: 'binary'}[P.get('long_opcode', 2)], P.get('cuts', 'as large as the 64 KiB receive buffer allows'), ','.join(tags)))
     if P.get('ping_sweep'):
         P.setdefault('N', 0)
         return Spec(name, 'checks.recv', 'run_recv', P,
@@ -46,14 +53,18 @@ def c01(tier):
         specs = [recv_spec('recv-N5', tags, N=5), recv_spec('recv-N6-nonfin', tags, N=6, first_nonfin=True, no_rsv=True),
                  recv_spec('recv-N6-nonfin-bytewise', tags, N=6, first_nonfin=True, no_rsv=True, cuts='bytewise'),
                  recv_spec('frag-text-L3', tags, family=dict(opcode=1, L=3, max_frags=3)),
-                 recv_spec('frag-binary-L2-pong', tags, family=dict(opcode=2, L=2, max_frags=3, ctrl=10), cuts='bytewise')]
+                 recv_spec('frag-binary-L2-pong', tags, family=dict(opcode=2, L=2, max_frags=3, ctrl=10), cuts='bytewise'),
+                 recv_spec('length-forms', tags, long_frame=True, xval_stride=5)]
     else:
         specs = [recv_spec('recv-N7', tags, N=7), recv_spec('recv-N9-nonfin', tags, N=9, first_nonfin=True, no_rsv=True),
                  recv_spec('recv-N7-nonfin-bytewise', tags, N=7, first_nonfin=True, no_rsv=True, cuts='bytewise'),
                  recv_spec('recv-N5-allcuts', tags, N=5, cuts='sym'),
                  recv_spec('frag-text-L4', tags, family=dict(opcode=1, L=4, max_frags=4)),
                  recv_spec('frag-text-L3-tail2', tags, family=dict(opcode=1, L=3, max_frags=3, tail_sym=2), cuts='bytewise'),
-                 recv_spec('frag-binary-L3-pong', tags, family=dict(opcode=2, L=3, max_frags=3, ctrl=10), cuts='bytewise')]
+                 recv_spec('frag-binary-L3-pong', tags, family=dict(opcode=2, L=3, max_frags=3, ctrl=10), cuts='bytewise'),
+                 recv_spec('length-forms', tags, long_frame=True, xval_stride=5),
+                 recv_spec('length-forms-text-1000', tags + ['C05'], long_frame=True, long_opcode=1, cuts=[1000] * 70, xval_stride=5),
+                 recv_spec('length-forms-4096', tags, long_frame=True, cuts=[4096] * 20, xval_stride=5)]
     return run_property('C01', tier, specs, 'model_checking', 'delivery once/in order/byte-exact',
                         ENV_ASSUMPTIONS, RECV_FUNCS)
 
@@ -62,9 +73,9 @@ def c04(tier):
     tags = ['C04']
     fam = [
         # (b) control opcode with the 16-bit length form: all 65536 lengths; those <= 196 complete inside the stream
-        recv_spec('ctrl-len16', tags, N=4, first_opcodes=[8, 9, 10], fixed={'1': 126}, suffix='41' * 200),
+        recv_spec('ctrl-len16', tags + ['C01'], N=4, first_opcodes=[8, 9, 10], fixed={'1': 126}, suffix='41' * 200),
         # (a) 64-bit length form: 10 symbolic header bytes (all 2^64 lengths)
-        recv_spec('len64-header', tags, N=10, fixed={'1': 127}, no_rsv=True, first_opcodes=[1, 2, 9]),
+        recv_spec('len64-header', tags + ['C01'], N=10, fixed={'1': 127}, no_rsv=True, first_opcodes=[1, 2, 9]),
         # (c) Close frames: symbolic 2-byte code (all 65536 codes) + up to 3 reason bytes
         recv_spec('close-codes', tags + ['C01'], N=7, first_opcodes=[8], no_rsv=True),
     ]
@@ -166,7 +177,7 @@ def build_spec(kind, lens):
 def c03(tier):
     from checks import build
     q = tier == 'quick'
-    lens = build.LENS_QUICK if q else build.LENS_THOROUGH
+    lens = build.LENS_QUICK + [65535, 65536] if q else build.LENS_THOROUGH
     specs = [build_spec('binary', lens),
              build_spec('text', [0, 1, 2] if q else [0, 1, 2, 3]),
              build_spec('ping', build.CTRL_LENS + [126, 127]),
